@@ -12,6 +12,7 @@ import (
 
 // Obligation is one named proof obligation.
 type Obligation struct {
+	PropsOnly bool // the clause names its properties: the obligation belongs to those only, not to all of the function's
 	Name   string
 	Kind   string
 	Key    string
@@ -43,6 +44,7 @@ func (u unsupportedErr) Error() string { return u.msg }
 
 // VC holds the verification condition of one function under contract.
 type VC struct {
+	retryOnly bool // discharge only the obligations not yet decided (second pass without competing functions)
 	hasStack bool // some local was marked stackobj: havoc versions keep the contents of those objects
 	pinned []string // root terms of parameters and call results: allocation facts are carried across havocs as ground facts
 	keepHyps map[string]bool // assumed intermediate assertions (atcall) that focused renderings keep
